@@ -28,6 +28,7 @@ RULE += (' Also: generator functions called with keyword arguments named func/se
 RULE += (' Also: generator handlers / clean-ups raising AttributeError, TypeError, KeyError, LookupError, AssertionError, OSError.')
 RULE += (' Also: block exceptions whose instances are falsy (__len__ == 0 / __bool__ False).')
 RULE += (' Also: decorated function called with arguments it does not take (the TypeError is raised inside the context).')
+RULE += (' Also: the whole use made from inside an except block of the caller.')
 ASSUMPTIONS = ["contextlib.asynccontextmanager of the running interpreter is the reference",
                "__cause__/__context__ chains and messages are not compared"]
 EXHAUSTIVE = {"quick": True, "thorough": True}
@@ -136,7 +137,8 @@ def cases(tier, seed, shard, nshards):
                     continue
                 idx += 1
                 if idx % nshards == shard:
-                    yield {"pre": pre, "handler": handler, "after": after, "outcome": outcome, "susp": susp, "mode": mode}
+                    yield {"pre": pre, "handler": handler, "after": after, "outcome": outcome, "susp": susp, "mode": mode,
+                           "ambient": idx % 3 == 0 and outcome != "GeneratorExit"}
 
 
 def make(pre, handler, after, log, susp):
@@ -305,8 +307,15 @@ def trial(factory, case):
                 log.append(("entered-again", v))
             log.append("after-second-with")
 
+    async def while_handling():
+        # the whole use sits INSIDE an except block of its caller: that unrelated exception is none of its business
+        try:
+            raise LookupError("an unrelated failure being handled by the caller")
+        except LookupError:
+            return await body()
+
     try:
-        drive(body())
+        drive(while_handling() if case.get("ambient") else body())
         res = ("ok",)
     except BaseException as e:  # noqa: BLE001
         res = ("raise", type(e).__name__, e is exc)
